@@ -199,3 +199,21 @@ PROPS["C25"] = dict(
     explanation="Bounded stand-in: random box forests (depth <= 3), random first box, up to 4 transitions per run fired by a random box of the active pile towards a random destination "
                 "(sibling, cousin, ancestor, descendant, self, other tree), with and without failing preconditions, then end(); logged act order compared with the prescribed one "
                 "(exited bottom-up, kept re-exited bottom-up, kept re-entered top-down, entered top-down, declaration order within a box).")
+
+MEMO_NOTE = "Native bounded harness (harness/memo_native.py): the real Memoer with scripted send/receive. "
+PROPS["C20"] = dict(
+    contracts=[], harness="harness.memo_native:C20", level="exploration", technique="bounded runtime contract (segment with the real rend, deliver in many orders with duplicates to the real receive path) -- stand-in",
+    explanation=MEMO_NOTE + "memos (ASCII, unicode, long) x gram sizes x base64/binary headers x plain/sure/auth codes x delivery orders (in order, reversed, shuffles, duplicates, "
+                "interleaved servicing) and a missing-gram case. The slice-arithmetic contracts for rend/pick planned in DESIGN.md are not built.")
+PROPS["C21"] = dict(
+    contracts=["contracts.memo_tx"], harness="harness.memo_native:C21", level="other",
+    trusted_base=["EXT transport send(gram, dst): returns 0..len(gram) having put gram[:cnt] on the wire, or raises OSError(e)"],
+    assumptions=["single destination per contract run; queue length 0..2 (symbolic contents, counts, errnos): bounded in queue length only",
+                 "'eventually sent' is liveness: its safety core is proved (nothing lost/duplicated/reordered per call; pending work is always offered to the transport)"],
+    explanation="Memoer._serviceOnceTxGrams, serviceTxGramsOnce, serviceTxGrams interpreted from /repo/src with a ghost account of bytes accepted by the transport and grams dropped: "
+                "account ++ pending_after == pending_before on every normal return, a gram is dropped only for an unreachable-destination errno, pending remainder or gram on an open "
+                "transport is offered to send() in full and oldest first. " + MEMO_NOTE)
+PROPS["C22"] = dict(
+    contracts=[], harness="harness.memo_native:C22", level="exploration", technique="bounded fault injection (single-byte mutations, truncations, random datagrams) on the real receive path -- stand-in",
+    explanation=MEMO_NOTE + "every gram of valid signed and unsigned memos mutated (bit flips, byte substitutions, truncation, replacement) and delivered in and out of order, plus random "
+                "datagrams with valid and invalid codes: servicing must not raise and, when signatures are required, no memo differing from the sent one is delivered. Cryptographic soundness is assumed of pysodium.")
